@@ -223,6 +223,118 @@ def handleFront (j : Json) : R Json := do
                                 ("total", jList jNat specTotal)])]
   else .error s!"unknown front function {fn}"
 
+def jInitRes : InitRes → Json
+  | .built ic cc g => jObj [("k", "built"), ("ident", jOpt jNat ic), ("cache", jOpt jNat cc), ("gone", Json.bool g)]
+  | .raisesNsp => jObj [("k", "nsp-not-found")]
+  | .raisesOther e => jObj (("k", Json.str "raw") :: jErr e)
+  | .unmodelled => jObj [("k", "unmodelled")]
+
+def jSigRes : SigRes → Json
+  | .sent => jObj [("k", "sent")]
+  | .valueError => jObj [("k", "ValueError")]
+  | .nsp n => jObj [("k", "nsp"), ("named", Json.bool n)]
+  | .zombie n => jObj [("k", "zombie"), ("named", Json.bool n)]
+  | .ad n => jObj [("k", "ad"), ("named", Json.bool n)]
+  | .raw e => jObj (("k", Json.str "raw") :: jErr e)
+
+def jWinAct : WinSigAct → Json
+  | .procKill => Json.str "proc_kill"
+  | .osKill => Json.str "os.kill"
+  | .valueError => Json.str "ValueError"
+  | .nspNotRunning => Json.str "nsp-not-running"
+
+def parseWinSig (s : String) : R WinSig :=
+  if s == "SIGTERM" then .ok .sigterm else if s == "CTRL_C_EVENT" then .ok .ctrlC
+  else if s == "CTRL_BREAK_EVENT" then .ok .ctrlBreak else if s == "other" then .ok .otherSig
+  else .error s!"bad signal {s}"
+
+def parseIdentPair (j : Json) : R (Nat × Option Nat) := do
+  let pid ← natF j "pid"
+  let ct ← optF asNat j "ctime"
+  return (pid, ct)
+
+/-- round 2: identity, equality, signals -/
+def handleFront2 (j : Json) : R Json := do
+  let fn ← strF j "fn"
+  if fn == "ident" then
+    let p ← strF j "plat" >>= parsePlat
+    let ign ← boolF j "ignore"
+    let ct ← natF j "ct"
+    let call ← optF asStr j "call"
+    match call with
+    | none =>
+      return jObj [("model", jInitRes (frontInit ign ct .value)), ("spec", jInitRes (.built (some ct) (some ct) false))]
+    | some call =>
+      let errno ← strF j "errno" >>= parseErrno
+      let winerror ← optF asNat j "winerror"
+      let state ← strF j "state" >>= parseState
+      let pid ← natF j "pid"
+      let pid0 ← boolF j "pid0"
+      let zcode ← optF asStr j "zcode"
+      let m ← match methodOf? p "create_time" with
+        | some m => pure m
+        | none => .error s!"create_time is not in the generated method list of {p.key}"
+      let e : Err := ⟨errno, winerror⟩
+      let (envM, env) := envs p pid state pid0 zcode
+      return jObj [("model", jInitRes (frontInit ign ct (identFault cfg p m call e envM))),
+                   ("spec", jInitRes (Spec.initExpected p e env ign))]
+  else if fn == "eq" then
+    let obn ← boolF j "obn"
+    let i1 ← field j "i1" >>= parseIdentPair
+    let i2 ← field j "i2" >>= parseIdentPair
+    let sts ← strF j "st"
+    let st ← (if sts == "zombie" then pure (StatusRes.status true) else if sts == "running" then pure (StatusRes.status false)
+              else if sts == "zombieExc" then pure StatusRes.zombieExc else if sts == "error" then pure StatusRes.error
+              else .error s!"bad status result {sts}")
+    return jObj [("model", jObj [("ret", Json.bool (frontEq obn i1 i2 st))]),
+                 ("spec", jObj [("ret", Json.bool (Spec.eqExpected obn i1 i2 (Spec.zombieNow st)))])]
+  else if fn == "sigposix" then
+    let openbsd ← boolF j "openbsd"
+    let pid ← natF j "pid"
+    let ex ← boolF j "exists"
+    let ks ← strF j "kill"
+    let k ← (if ks == "ok" then pure KillRes.ok else do
+               let en ← parseErrno ks
+               pure (KillRes.ofErr ⟨en, none⟩))
+    let r := frontSendSignalPosix openbsd pid k ex
+    return jObj [("model", jObj [("res", jSigRes r.1), ("gone", Json.bool r.2)]),
+                 ("spec", jObj [("res", jSigRes (Spec.sendSignalPosixExpected openbsd pid k ex))])]
+  else if fn == "sigwin" then
+    let via ← strF j "via"
+    let running ← boolF j "running"
+    let sig ← strF j "sig" >>= parseWinSig
+    let act := if via == "send_signal" then frontSendSignalWin sig running
+               else if via == "terminate" then frontTerminateWin else frontKillWin
+    let want := if via == "send_signal" then Spec.sendSignalWinExpected sig running else frontKillWin
+    let platMeth := if via == "send_signal" then "send_signal" else "kill"
+    let errno ← optF asStr j "errno"
+    match errno, act.native? with
+    | some en, some call =>
+      let errno ← parseErrno en
+      let winerror ← optF asNat j "winerror"
+      let state ← strF j "state" >>= parseState
+      let pid ← natF j "pid"
+      let m ← match methodOf? .windows platMeth with
+        | some m => pure m
+        | none => .error s!"{platMeth} is not in the generated method list of windows"
+      let e : Err := ⟨errno, winerror⟩
+      let env : Env := ⟨pid, state, true⟩
+      return jObj [("model", jObj [("act", jWinAct act), ("o", jOutcome (methodFault cfg .windows m call e env false).1)]),
+                   ("spec", jObj [("act", jWinAct want), ("o", jOutcome (Spec.contract .windows e env))])]
+    | _, _ =>
+      return jObj [("model", jObj [("act", jWinAct act)]), ("spec", jObj [("act", jWinAct want)])]
+  else .error s!"unknown front2 function {fn}"
+
+def handleApiFields (j : Json) : R Json := do
+  let p ← strF j "plat" >>= parsePlat
+  let jRow := fun (r : String × String × Bool × List String) =>
+    jObj [("api", Json.str r.1), ("nt", Json.str r.2.1), ("ordered", Json.bool r.2.2.1), ("fields", jList Json.str r.2.2.2),
+          ("gaps", jList Json.str (r.2.2.2.filter fun f => Spec.fieldGaps.contains (p.key, r.1, f)))]
+  return jObj [
+    ("documented", jList jRow (docFieldsOf p)),
+    ("actual", jList (fun (q : String × List String) => jObj [("nt", Json.str q.1), ("fields", jList Json.str q.2)])
+                 ((Gen.C20.actualFields.lookup p.key).getD []))]
+
 def handleApi (j : Json) : R Json := do
   let p ← strF j "plat" >>= parsePlat
   return jObj [
@@ -238,6 +350,8 @@ def handle (_ : Unit) (j : Json) : R (Unit × Json) := do
     else if op == "netif" then handleNetif j
     else if op == "api" then handleApi j
     else if op == "front" then handleFront j
+    else if op == "front2" then handleFront2 j
+    else if op == "apifields" then handleApiFields j
     else .error s!"unknown op {op}")
   return ((), r)
 
